@@ -106,10 +106,13 @@ func (ch *ChannelOfValue) Push(val Value) (err Value) {
 	defer func() {
 		if r := recover(); r != nil {
 			err = ChannelClosedPushError.ToValue()
+			vhook("chan.push.err", ch, val)
 		}
 	}()
 
+	vhook("chan.push.try", ch, val)
 	ch.native <- val
+	vhook("chan.push.ok", ch, val)
 	return Undefined
 }
 
@@ -117,11 +120,14 @@ func (ch *ChannelOfValue) PushCtx(ctx context.Context, val Value) (err Value) {
 	defer func() {
 		if r := recover(); r != nil {
 			err = ChannelClosedPushError.ToValue()
+			vhook("chan.push.err", ch, val)
 		}
 	}()
 
+	vhook("chan.push.try", ch, val)
 	select {
 	case ch.native <- val:
+		vhook("chan.push.ok", ch, val)
 		return Undefined
 	case <-ctx.Done():
 		return ExecutionAbortedError.ToValue()
@@ -129,20 +135,26 @@ func (ch *ChannelOfValue) PushCtx(ctx context.Context, val Value) (err Value) {
 }
 
 func (ch *ChannelOfValue) Pop() (result Value, err Value) {
+	vhook("chan.pop.try", ch)
 	result, ok := <-ch.native
 	if !ok {
+		vhook("chan.pop.err", ch)
 		return Undefined, ChannelClosedPopError.ToValue()
 	}
 
+	vhook("chan.pop.ok", ch, result)
 	return result, Undefined
 }
 
 func (ch *ChannelOfValue) PopCtx(ctx context.Context) (result Value, err Value) {
+	vhook("chan.pop.try", ch)
 	select {
 	case result, ok := <-ch.native:
 		if !ok {
+			vhook("chan.pop.err", ch)
 			return Undefined, ChannelClosedPopError.ToValue()
 		}
+		vhook("chan.pop.ok", ch, result)
 		return result, Undefined
 	case <-ctx.Done():
 		return Undefined, ExecutionAbortedError.ToValue()
@@ -150,20 +162,26 @@ func (ch *ChannelOfValue) PopCtx(ctx context.Context) (result Value, err Value) 
 }
 
 func (ch *ChannelOfValue) NextValue() (Value, Value) {
+	vhook("chan.next.try", ch)
 	next, ok := <-ch.native
 	if !ok {
+		vhook("chan.next.stop", ch)
 		return Undefined, stopIterationSymbol.ToValue()
 	}
 
+	vhook("chan.next.ok", ch, next)
 	return next, Undefined
 }
 
 func (ch *ChannelOfValue) NextValueCtx(ctx context.Context) (Value, Value) {
+	vhook("chan.next.try", ch)
 	select {
 	case next, ok := <-ch.native:
 		if !ok {
+			vhook("chan.next.stop", ch)
 			return Undefined, stopIterationSymbol.ToValue()
 		}
+		vhook("chan.next.ok", ch, next)
 		return next, Undefined
 	case <-ctx.Done():
 		return Undefined, ExecutionAbortedError.ToValue()
@@ -188,9 +206,12 @@ func (ch *ChannelOfValue) Close() (err Value) {
 	defer func() {
 		if r := recover(); r != nil {
 			err = ChannelClosedCloseError.ToValue()
+			vhook("chan.close.err", ch)
 		}
 	}()
 
+	vhook("chan.close.try", ch)
 	close(ch.native)
+	vhook("chan.close.ok", ch)
 	return Undefined
 }
